@@ -15,6 +15,8 @@ MODELS = {
     "pacman-default@corridor": ("pacman-default", "pac_man"),
     "rware-tiny-T3@scenarios": ("rware-tiny-T3", "robot_warehouse"),
     "rware-awk-T2@scenarios": ("rware-awk-T2", "robot_warehouse"),
+    # two LOADED agents within Manhattan distance 2 of each other, every position x direction pair
+    "rware-tiny-T3@pairs": ("rware-tiny-T3", "robot_warehouse"),
 }
 
 
@@ -50,6 +52,25 @@ def build_roots(env: Any, model: str, key_seed: int = 0):
         states, descs = ref.corridor_states(env, s0)
         ts = ref.corridor_timesteps(env, states)
         stale = False
+    elif model.endswith("@pairs"):
+        import numpy as np
+
+        q = np.asarray(s0.request_queue).ravel()
+        s1s, d1s = ref.scenario_states(env, s0, agent=1, load_shelf=int(q[1]))
+        parts, descs = [], []
+        for i, d1 in enumerate(d1s):
+            if d1["carrying_shelf"] is None:
+                continue
+            st, ds = ref.scenario_states(env, t_index(s1s, i), agent=0, load_shelf=int(q[0]))
+            keep = [j for j, d0 in enumerate(ds) if d0["carrying_shelf"] is not None
+                    and 0 < abs(d0["x"] - d1["x"]) + abs(d0["y"] - d1["y"]) <= 2]
+            if keep:
+                parts.append(t_index(st, np.array(keep)))
+                descs += [{"agent0": ds[j], "agent1": d1} for j in keep]
+        states = jax.tree_util.tree_map(lambda *xs: np.concatenate(xs, axis=0), *parts)
+        n = len(descs)
+        ts = jax.tree_util.tree_map(lambda x: np.repeat(x[None], n, axis=0), ts0)
+        stale = True
     else:
         states, descs = ref.scenario_states(env, s0, agent=0)
         n = len(descs)
@@ -75,7 +96,7 @@ def explore(pid: str, model: str, tier: str, seed: int) -> Dict[str, Any]:
     plan.pop("max_states", None)
     plan.pop("time_budget_s", None)
     states, ts, descs, stale = build_roots(env, model)
-    depth = 1 if (not stale or model.startswith("rware-awk")) else 2
+    depth = 1 if (not stale or model.startswith("rware-awk") or model.endswith("@pairs")) else 2
     if tier == "thorough" and fam == "pac_man":
         depth = 2
     ex = Explorer(env, model, pid, roots=(states, ts), root_desc=descs, monitors=monitors, max_depth=depth,
